@@ -1,2 +1,24 @@
-From Tramp Require Import Model.Base Model.Sys Props.C08.
-Print Assumptions C08_placeholder.
+From Tramp Require Import Model.Base Model.Fee Model.Classify Model.Node Model.Provider Model.ProviderSys Model.Sys.
+From Tramp Require Import Proofs.SysBasics Proofs.SysReach Proofs.SysPreimage Proofs.SysCalls Proofs.SysNode Proofs.SysSafety Props.C08.
+Check C08_write_ahead : forall c n t0 h0 a0 evs,
+  node_ok n -> hist_wf c (sys_start n t0 h0 a0) evs ->
+  let s := after c n t0 h0 a0 evs in
+  busy (nd s) \/ payrun (nd s) <> 0 -> hot (nd s).
+Check C08_free_only_when_nothing_live : forall c n t0 h0 a0 evs,
+  node_ok n -> hist_wf c (sys_start n t0 h0 a0) evs ->
+  let s := after c n t0 h0 a0 evs in
+  free_view (ds (nd s)) -> all_failed (parts (nd s)) /\ payrun (nd s) = 0.
+Check C08_marker_before_pay : forall c n t0 h0 a0 evs ev cid b am mf md rt,
+  node_ok n -> hist_wf c (sys_start n t0 h0 a0) evs ->
+  let s := after c n t0 h0 a0 evs in
+  In (OCall cid (QPay b am mf md rt)) (snd (step c s ev)) -> hot (nd s).
+Check C08_succeeded_record_holds_preimage : forall (good : list N -> Prop) c evs s,
+  InvS good s -> Forall (ev_good good) evs ->
+  forall p g, ds (nd (fst (run c s evs))) = Some (DSucc p, g) -> good p.
+Check (eq_refl : busy = fun n => exists i st, nth_error (parts n) i = Some st /\ st <> PFailed).
+Check (eq_refl : hot = fun n => match ds n with Some (v, _) => match v with DPending _ _ | DSucc _ => True | _ => False end | None => False end).
+Print Assumptions C08_write_ahead.
+Print Assumptions C08_free_only_when_nothing_live.
+Print Assumptions C08_marker_before_pay.
+Print Assumptions C08_succeeded_record_holds_preimage.
+Print Assumptions C08_nonvacuous.
